@@ -598,7 +598,9 @@ def post_batch(tier, base_seed, results):
     out["evidence"]["hashseed_reexecution"] = {"batches": n, "PYTHONHASHSEED": [0, 4242], "mismatches": len(diff)}
     if diff:
         out["violations"].append({"class": "hashseed_dependence", "message": "batches %r give different outputs / event logs under PYTHONHASHSEED=4242" % diff[:8],
-                                  "detail": {"indices": diff}, "rerun": "VERIF_HASHSEED=4242 ./check C08 --tier thorough --runs %d --print-shas" % n})
+                                  "detail": {"indices": diff}, "tier": tier, "base_seed": base_seed, "n": n,
+                                  "sha_hashseed_0": {str(i): mine[i] for i in diff}, "sha_hashseed_4242": {str(i): other[i] for i in diff},
+                                  "rerun": "VERIF_SEED=%d VERIF_HASHSEED=4242 ./check C08 --tier %s --runs %d --print-shas --no-evidence  # compare with VERIF_HASHSEED=0" % (base_seed, tier, n)})
     # (b) real processes
     if tier != "thorough":
         out["evidence"]["real_process_fidelity_probe"] = "thorough tier only"
@@ -608,6 +610,24 @@ def post_batch(tier, base_seed, results):
     if bad:
         raise HarnessError("real multiprocessing contradicts an assumption of the stub: %r" % {k: out["evidence"]["real_process_fidelity_probe"][k] for k in bad})
     return out
+
+
+def replay_post(doc):
+    """Replay of a hashseed_dependence finding: re-execute the same batches under both hash seeds in fresh
+    interpreters; reproduced iff the hashes of the recorded batches differ again."""
+    import subprocess
+    from .core import VERIF_DIR
+    shas = {}
+    for hs in ("0", "4242"):
+        env = dict(os.environ, VERIF_HASHSEED=hs, VERIF_SEED=str(doc["base_seed"]), VERIF_TIER=doc["tier"])
+        env.pop("PYTHONHASHSEED", None)
+        p = subprocess.run([os.path.join(VERIF_DIR, "check"), ID, "--tier", doc["tier"], "--runs", str(doc["n"]), "--print-shas", "--no-evidence"],
+                           capture_output=True, text=True, env=env, timeout=3 * 3600)
+        shas[hs] = {l.split()[1]: l.split()[2] for l in p.stdout.splitlines() if l.startswith("SHA ")}
+    diff = sorted(i for i in shas["0"] if shas["0"].get(i) != shas["4242"].get(i))
+    want = sorted(doc["sha_hashseed_0"])
+    exact = all(shas["0"].get(i) == doc["sha_hashseed_0"][i] and shas["4242"].get(i) == doc["sha_hashseed_4242"][i] for i in want)
+    return bool(diff), exact, "batches differing between PYTHONHASHSEED 0 and 4242: %r" % diff
 
 
 def fidelity_probe():
